@@ -129,8 +129,19 @@ def lake_build(timeout=3000) -> tuple[bool, str]:
 
 
 def registry(prop: str) -> dict:
-    f = LEAN / "registry" / f"{prop}.json"
-    return json.loads(f.read_text())
+    """Merge lean/registry/<prop>.json and lean/registry/<prop>_*.json."""
+    files = sorted((LEAN / "registry").glob(f"{prop}.json")) + sorted((LEAN / "registry").glob(f"{prop}_*.json"))
+    if not files:
+        raise FileNotFoundError(f"no registry for {prop}")
+    out = {"modules": [], "theorems": [], "partial": {}, "not_proved": [], "trusted": []}
+    for f in files:
+        r = json.loads(f.read_text())
+        for k in ("modules", "theorems", "not_proved", "trusted"):
+            for x in r.get(k, []):
+                if x not in out[k]:
+                    out[k].append(x)
+        out["partial"].update(r.get("partial", {}))
+    return out
 
 
 def audit(prop: str) -> dict:
